@@ -201,14 +201,15 @@ def files_of(scn):
     return {r["url"]: P.render_upstream(r["version"])[0] for r in scn.repos}
 
 
-def run_observed(scn, base, plan=None, files_by_url=None, local_fault=None, trace=False, gate=None, path_fault=None):
+def run_observed(scn, base, plan=None, files_by_url=None, local_fault=None, trace=False, gate=None, path_fault=None,
+                 path_fault_kinds=("open-w",)):
     files_by_url = files_by_url or files_of(scn)
     faults = realise_plan(plan or {}, files_by_url)
     hook = state = None
     if local_fault:
         hook, state = local_fault_hook(local_fault, base)
     elif path_fault:
-        hook, state = path_fault_hook(path_fault)
+        hook, state = path_fault_hook(path_fault, kinds=path_fault_kinds)
     with Instrument() as inst:
         res = P.run_tool(scn, base, faults=faults, on_event=hook, trace=trace or bool(hook), gate=gate,
                          upstream_files=files_by_url)
